@@ -14,11 +14,34 @@ ANCHORS = {"avocado_i2n/cartgraph/node.py": [
     "TestNode.setless_form"],
     "avocado_i2n/cartgraph/graph.py": ["TestGraph.get_nodes_by_name"]}
 TRUSTED = ["modelled, not verified: result order of PrefixTree.get (compared as sorted lists); "
-           "names repeating their first variant are excluded (the real insert does not terminate on them)"]
+           "names repeating their first variant are excluded (the real insert does not terminate on them)",
+           "harness/pygen.py + harness/pygen_pxindex.py (Python AST -> Lean `do` block, fails closed) regenerate "
+           "I2N/Extracted/GenIndex.lean on every run from the source of EdgeRegister.register / get_counters / "
+           "get_workers; register_matches_source, getCounters_matches_source, getWorkers_matches_source prove the hand "
+           "model equal to it through the adapter `flat` (dict of dicts -> flat association list) for every well formed "
+           "registry, source_counters_exact states exactness on the generated source itself.  Trusted: the translator; "
+           "the dictionary primitives of I2N/Lemmas/PyDict.lean (keys, getD = dict.get, get? = dict[], setItem = "
+           "dict[k] = v, insertion ordered); the atom table (truthiness of an optional TestNode / TestWorker is "
+           "`is not None`; node.bridged_form / worker.id are the keys); the three subscript stores of register pinned "
+           "verbatim to setInnerEmpty / setCount 0 / addCount 1"]
 
 SETS = ["normal", "minimal", "all", "leaves"]
 VARS = ["nongui", "quicktest", "tutorial1", "tutorial2", "internal", "automated", "customize", "vms", "vm1", "vm2",
         "qcow2", "CentOS", "8", "0", "nets", "localhost", "net1", "net2", "cluster1"]
+
+
+def extract(ctx):
+    """lean/I2N/Extracted/GenIndex.lean from /repo's AST (second tie, see harness/pygen_pxindex.py).  Raises
+    (pygen.Unsupported) when one of the three EdgeRegister methods left the translated subset or a pinned statement
+    changed: run.py records that as a broken proof obligation (and runs the failing-input search)."""
+    import pygen_pxindex
+    if pygen_pxindex.extract_index(ctx):
+        ctx.notes.append("I2N/Extracted/GenIndex.lean changed: the source of EdgeRegister.register / get_counters / "
+                         "get_workers differs from the one the committed file was generated from (register_matches_source, "
+                         "getCounters_matches_source, getWorkers_matches_source are re-checked)")
+    ctx.extra["regenerated"] = ("lean/I2N/Extracted/GenIndex.lean (EdgeRegister.register, get_counters, get_workers via "
+                                "harness/pygen_pxindex.py); obligations: register_matches_source, "
+                                "getCounters_matches_source, getWorkers_matches_source, source_counters_exact")
 
 
 def _impl():
